@@ -320,10 +320,12 @@ theorem allocateOrOccupy_svcs (s : Sys) (n : NodeObj) (r : Bool) (ws : List WOut
     · rfl
     · split
       · rfl
-      · rw [updateCIDRsAllocation_svcs]
+      · simp only
         split
-        · split <;> rfl
-        · rfl
+        · split
+          · rw [updateCIDRsAllocation_svcs]
+          · simp only [updateCIDRsAllocation_svcs]
+        · rw [updateCIDRsAllocation_svcs]
 
 /-- **no PATCH of a node item meets a configured service range** — for every ClusterCIDR mapped, whatever the
 relative sizes of service range, ClusterCIDR range and per-node block, whatever the write outcomes -/
@@ -339,11 +341,12 @@ theorem item_patches_avoid_service (s : Sys) (hwf : s.alloc.WF) (hcov : CoveredA
 
 /-- **an allocation item keeps every service range covered** (used sets only grow or are restored) -/
 theorem item_keeps_covered (s : Sys) (hwf : s.alloc.WF) (hcov : CoveredAll s) (n : NodeObj) (refresh : Bool)
-    (ws : List WOut) (hn : n.hasCidrs = false) : CoveredAll (allocateOrOccupy s n refresh ws).1 := by
+    (ws : List WOut) (hn : n.hasCidrs = false)
+    (hr : refresh = true → (getNode s.api.nodes n.name).isSome = true) : CoveredAll (allocateOrOccupy s n refresh ws).1 := by
   intro svc hsvc
   rw [allocateOrOccupy_svcs] at hsvc
   refine ⟨(hcov svc hsvc).1, ?_⟩
-  rcases C04.item_keeps_only_justified_reservations s hwf n refresh ws hn with h | ⟨al, cidrs, i, hpr, _, h⟩
+  rcases C04.item_keeps_only_justified_reservations s hwf n refresh ws hn hr with h | ⟨al, cidrs, i, hpr, _, h⟩
   · exact Covered_of_poolsLe (PoolsLe.of_le h.1) (hcov svc hsvc).2
   · have hle := (C04.attempt_only_grows hwf _ _ hpr).1
     have hcal := Covered_of_poolsLe (PoolsLe.of_le hle) (hcov svc hsvc).2
